@@ -586,9 +586,9 @@ def overused_constant(source: str, *, root_is_static: bool) -> str:
 
         common_scopes = set.intersection(*(scope_node_definitions[node] for node in nodes))
 
-        # root is a Module and has no lineno
+        # root is a Module and has no lineno. A function on the first line is further in.
         best_common_scope = max(
-            common_scopes, key=lambda node: getattr(node, "lineno", 1), default=root
+            common_scopes, key=lambda node: getattr(node, "lineno", 0), default=root
         )
         nodes = list(nodes)
         if (
